@@ -1,4 +1,5 @@
 mod kernel;
+mod kv;
 mod net;
 mod props;
 mod runner;
